@@ -74,6 +74,8 @@ def run(ctx):
     from props import glue
     glue.bytes_dirfd_hidden(ctx)
     glue.root_through_link(ctx)
+    from props import clauses
+    clauses.misc_clauses(ctx, 'C05')
     return ctx.finish(RULE)
 
 
